@@ -85,7 +85,7 @@ def generate(run_seed, index, tier):
     st = srng.Streams(run_seed)
     cfg_r, prog_r, flt_r = st['config'], st['program'], st['faults']
     thorough = (tier == 'thorough')
-    nmax = srng.weighted(cfg_r, [(1, 2), (2, 4), (3, 3), (4, 2), (5, 1 if not thorough else 2), (6, 0.3 if not thorough else 0.6), (7, 0.1 if not thorough else 0.4)])
+    nmax = srng.weighted(cfg_r, [(1, 2), (2, 4), (3, 3), (4, 2), (5, 1 if not thorough else 2), (6, 0.6), (7, 0.4)])
     two = cfg_r.random() < 0.25
     lru = srng.weighted(cfg_r, [(None, 7), (0, 1), (1, 1), (2, 1)])
     fault_rate = srng.weighted(cfg_r, [(0.0, 5), (0.06, 2), (0.15, 2), (0.3, 1)])
